@@ -474,6 +474,60 @@ static void c14_pair(const uint8_t* x, size_t nx, const uint8_t* y, size_t ny) {
   vb_free(&d);
 }
 
+/* x is one big leaf (a string of 128 KiB..16 MiB, a container or chunked string of 10 000..400 000 members, bare or as
+ * the last member of an array), y one of 20 continuations covering every kind of first byte. x alone is decoded once;
+ * x||y must give the same tree and the same read count for every y. descriptor: 'G' + u32 index */
+static void c14_big(uint32_t idx) {
+  uint8_t desc[5] = {'G', (uint8_t)(idx >> 24), (uint8_t)(idx >> 16), (uint8_t)(idx >> 8), (uint8_t)idx};
+  if (!vh_case(desc, 5)) return;
+  rnode* t = gen_bigleaf(idx);
+  if (!t) return;
+  struct vh_buf x = {0};
+  ref_encode_src(t, &x);
+  rn_free(t);
+  size_t cap0 = CAP;
+  CAP = (size_t)1 << 30; ta_set_cap(CAP);
+  uint8_t* a = vh_exact(x.p, x.n);
+  struct cbor_load_result ra;
+  memset(&ra, 0, sizeof ra);
+  cbor_item_t* ia = cbor_load(a, x.n, &ra);
+  if (!ia || ra.read != x.n) { vh_violation("big-item-not-decoded", "a well-formed %zu-byte item did not decode as one item (code %d, read %zu)", x.n, (int)ra.error.code, ra.read); if (ia) cbor_decref(&ia); goto out; }
+  struct vh_buf da = {0};
+  walk_dump_item(ia, &da, WD_REFCOUNTS);
+  cbor_decref(&ia);
+  static const uint8_t ys[][3] = {{0}, {0x00}, {0x01}, {0x17}, {0x18, 0x18}, {0x19, 0x01}, {0x20}, {0x37}, {0x40}, {0x41, 0x00}, {0x60}, {0x80}, {0x81, 0x00}, {0xa0}, {0xc0, 0x00}, {0xf4}, {0xf6}, {0xf9, 0x3c, 0x00}, {0xff}, {0x1c}, {0x5f, 0xff}, {0x9f, 0xff}};
+  static const uint8_t yn[] = {0, 1, 1, 1, 2, 2, 1, 1, 1, 2, 1, 1, 2, 1, 2, 1, 1, 3, 1, 1, 2, 2};
+  for (size_t k = 0; k < sizeof yn; k++) {
+    if (!O.thorough && x.n > 300000 && (k % 3) != (idx % 3) && k > 3) continue; /* quick: the first four and a third of the rest on the largest items */
+    uint8_t* base = malloc(x.n + yn[k] + (k & 1)); /* the end abuts the red zone; two start alignments */
+    uint8_t* ex = base + (k & 1);
+    memcpy(ex, x.p, x.n);
+    memcpy(ex + x.n, ys[k], yn[k]);
+    struct cbor_load_result rb;
+    memset(&rb, 0, sizeof rb);
+    cbor_item_t* ib = cbor_load(ex, x.n + yn[k], &rb);
+    if (!ib) vh_violation("suffix-changes-acceptance", "a %zu-byte item x decodes alone but x||%s fails with %s at %zu", x.n, vh_hex(ys[k], yn[k], 4), code_name((int)rb.error.code), rb.error.position);
+    else {
+      if (rb.read != x.n) vh_violation("suffix-changes-read", "read=%zu for the %zu-byte item x alone but %zu for x||%s", x.n, x.n, rb.read, vh_hex(ys[k], yn[k], 4));
+      struct vh_buf db = {0};
+      walk_dump_item(ib, &db, WD_REFCOUNTS);
+      if (da.n != db.n || memcmp(da.p, db.p, da.n)) vh_violation("suffix-changes-tree", "tree of x||%s differs from the tree of the %zu-byte item x alone (dumps of %zu vs %zu bytes; x||y starts %s)", vh_hex(ys[k], yn[k], 4), x.n, db.n, da.n, vh_hex(db.p, db.n, 24));
+      vb_free(&db);
+      cbor_decref(&ib);
+    }
+    free(base);
+    if (ta_live_count()) { vh_violation("leak", "%zu block(s) left after decoding a big item followed by %s", ta_live_count(), vh_hex(ys[k], yn[k], 4)); ta_forget_all(); }
+    VH_COUNT("big_x.pairs_checked", 1);
+  }
+  vb_free(&da);
+  VH_COUNT("big_x.items", 1);
+  vh_nontrivial(vh_hash(desc, 5));
+out:
+  free(a);
+  CAP = cap0; ta_set_cap(CAP);
+  vb_free(&x);
+}
+
 /* Descriptor for sequences: 0xFFFF marker, count k, then k x (2-byte length, bytes). */
 static void c14_sequence(const struct vh_buf* items, size_t k) {
   struct vh_buf d = {0}, cat = {0};
@@ -599,6 +653,7 @@ static void gianterr_case(int which);
 static void load_exec(const uint8_t* d, size_t n) {
   if (!strcmp(O.stage, "gianterr") && n == 2 && d[0] == 'Z') { gianterr_case(d[1]); return; }
   if (!strcmp(O.stage, "hugebuf") && n >= 9 && d[0] == 'H') { size_t c = 0; for (int i = 0; i < 8; i++) c = c << 8 | d[1 + i]; hugebuf_case(d + 9, n - 9, c); return; }
+  if (P == 14 && n == 5 && d[0] == 'G') { c14_big((uint32_t)d[1] << 24 | (uint32_t)d[2] << 16 | (uint32_t)d[3] << 8 | d[4]); return; }
   if (P == 14 && n == 9 && d[0] == 'Q') { c14_long((uint32_t)d[1] << 24 | (uint32_t)d[2] << 16 | (uint32_t)d[3] << 8 | d[4], (uint32_t)d[5] << 24 | (uint32_t)d[6] << 16 | (uint32_t)d[7] << 8 | d[8]); return; }
   if (P == 14) {
     if (n >= 3 && d[0] == 0xff && d[1] == 0xff) {
@@ -881,6 +936,8 @@ static void stage_seq(void) {
     c14_sequence(seq, k);
     for (size_t i = 0; i < k; i++) vb_free(&seq[i]);
   }
+  /* big x */
+  { uint32_t nb = (uint32_t)gen_bigleaf_count(); for (uint32_t u = 0; u < nb; u++) if ((int)(u % (uint32_t)O.nshards) == O.shard) c14_big(u); }
   /* long sequences */
   { static const uint32_t ks[] = {300, 5000, 70000, 200000};
     for (uint32_t q = 0; q < 16; q++) if ((int)(q % (uint32_t)O.nshards) == O.shard) c14_long(q + (uint32_t)O.seed * 16, ks[q % 4]); }
